@@ -5,11 +5,13 @@
 package c05
 
 import (
+	"context"
 	"encoding/binary"
 	"fmt"
 	"io"
 	"os"
 	"path/filepath"
+	"sort"
 	"strings"
 	"sync"
 	"time"
@@ -290,9 +292,17 @@ func verify(c *common.Ctx, cp crashPoint, dbName string, allowed []posImg, key s
 	}
 	rep2["crash_point"] = cp.Label
 	infos, _ := lfs.ListLTX(filepath.Join(cp.Dir, "dbs", dbName))
+	// the model lists the files of the log in the order Open ranks them: by their last transaction id, the newest last
+	// (maxLTXFile keeps the first name among files with the same last id)
+	sort.SliceStable(infos, func(i, j int) bool {
+		if infos[i].Max != infos[j].Max {
+			return infos[i].Max < infos[j].Max
+		}
+		return infos[i].Name > infos[j].Name
+	})
 	var newest *lfs.LTXInfo
 	for i := range infos {
-		if infos[i].Valid && (newest == nil || infos[i].Max > newest.Max) {
+		if infos[i].Valid && (newest == nil || infos[i].Max >= newest.Max) {
 			newest = &infos[i]
 		}
 	}
@@ -382,6 +392,18 @@ func verify(c *common.Ctx, cp crashPoint, dbName string, allowed []posImg, key s
 	// the restarted node can commit again, in the journal mode the recovered header names, and what it commits replicates
 	if followUp && primary && db != nil && len(im.Pages) > 0 {
 		walMode := len(im.Pages[0]) > 19 && im.Pages[0][18] == 2 && im.Pages[0][19] == 2
+		if !walMode {
+			// the recovered header names rollback-journal mode: a connection that reads (SHARED held shared) keeps
+			// LiteFS's own writers (apply, import, checkpoint, halt) out, as it does on a node that never crashed
+			const reader = 424242
+			if db.TryRLocks(context.Background(), reader, []litefs.LockType{litefs.LockTypeShared}) {
+				if gs := db.TryAcquireWriteLock(); gs != nil {
+					gs.Unlock()
+					c.Violate(key+":follow-up:reader-not-excluded", fmt.Sprintf("crash at [%s]: the recovered database is in rollback-journal mode (page 1 versions 1/1); with a connection reading it (SHARED held) LiteFS's internal write lock is granted all the same: the restarted node takes the locks of the other journal mode", cp.Label), rep2)
+				}
+				_ = db.Unlock(context.Background(), reader, []litefs.LockType{litefs.LockTypeShared})
+			}
+		}
 		h := hist.NewOn(c, c.Rng.Fork(), hist.Config{PageSize: im.PageSize, AllowWAL: walMode, ForceWAL: walMode}, n.Store, n.Exits, dbName, im, txid, walMode)
 		wantOp := map[bool]string{false: "rtx", true: "wtx"}[walMode]
 		for tries := 0; tries < 200; tries++ {
@@ -758,10 +780,91 @@ func Run(c *common.Ctx) error {
 			return err
 		}
 	}
+	if err := restoreFromBackup(c, c.Rng.Fork()); err != nil {
+		return err
+	}
 	for i := 0; i < c.Pick(2, 12); i++ {
 		if err := replicaApply(c, c.Rng.Fork(), i); err != nil {
 			return err
 		}
+	}
+	return nil
+}
+
+// restoreFromBackup: the primary finds that the backup service holds another history of the database than its own (the
+// service is authoritative) and replaces the database by the service's snapshot. Interrupted at any point, the restart
+// yields either the node's own position and image, or the service's - never a database without its position.
+func restoreFromBackup(c *common.Ctx, r *common.Rand) error {
+	dir, err := os.MkdirTemp(c.OutDir, "c05b-")
+	if err != nil {
+		return err
+	}
+	defer os.RemoveAll(dir)
+	svc := filepath.Join(dir, "service")
+	_ = os.MkdirAll(svc, 0o755)
+	// node A fills the service
+	a, err := lfs.Open(filepath.Join(dir, "a"), true, func(s *litefs.Store) { s.BackupClient = litefs.NewFileBackupClient(svc) })
+	if err != nil {
+		return err
+	}
+	ha := hist.NewOn(c, r.Fork(), hist.Config{PageSize: 512}, a.Store, a.Exits, "db", nil, 0, false)
+	for done, tries := 0, 0; done < 3 && tries < 300; tries++ {
+		st := ha.GenStep()
+		if st.Op != "rtx" {
+			continue
+		}
+		st.Outcome, st.ToWAL = 0, false
+		if ob := ha.Exec(st); ob.Captured && ob.Err == "" {
+			done++
+		}
+	}
+	if err := a.Store.SyncBackup(context.Background()); err != nil {
+		a.Close()
+		return fmt.Errorf("fill service: %w", err)
+	}
+	svcPos := a.Store.DB("db").Pos()
+	svcImg := ha.Ref.Clone()
+	a.Close()
+	// node B has a history of its own under the same name
+	rc := &recorder{src: filepath.Join(dir, "b"), max: 200}
+	b, err := lfs.Open(rc.src, true, withRecorder(rc), func(s *litefs.Store) { s.BackupClient = litefs.NewFileBackupClient(svc) })
+	if err != nil {
+		return err
+	}
+	defer b.Close()
+	hb := hist.NewOn(c, r.Fork(), hist.Config{PageSize: 512}, b.Store, b.Exits, "db", nil, 0, false)
+	for done, tries := 0, 0; done < 2 && tries < 300; tries++ {
+		st := hb.GenStep()
+		if st.Op != "rtx" {
+			continue
+		}
+		st.Outcome, st.ToWAL = 0, false
+		if ob := hb.Exec(st); ob.Captured && ob.Err == "" {
+			done++
+		}
+	}
+	own := b.Store.DB("db").Pos()
+	before := posImg{uint64(own.TXID), uint64(own.PostApplyChecksum), hb.Ref.Clone()}
+	after := posImg{uint64(svcPos.TXID), uint64(svcPos.PostApplyChecksum), svcImg}
+	snapDir := filepath.Join(dir, "snaps")
+	rc.arm(snapDir)
+	serr := b.Store.SyncBackup(context.Background())
+	rc.snap("operation returned")
+	points := rc.disarm()
+	got := b.Store.DB("db").Pos()
+	c.Distinct("restore-from-backup")
+	c.Count("crash_points_restore", len(points))
+	rep := map[string]any{"kind": "crash-restore-from-backup", "sync_error": fmt.Sprint(serr)}
+	if uint64(got.TXID) != after.txid || uint64(got.PostApplyChecksum) != after.chk {
+		// the node did not restore (not this scenario's business): nothing was interrupted
+		return nil
+	}
+	for k, cp := range points {
+		allowed := []posImg{before, after}
+		if k == len(points)-1 {
+			allowed = []posImg{after}
+		}
+		verify(c, cp, "db", allowed, "C05:restore-from-backup", rep, true, false)
 	}
 	return nil
 }
